@@ -16,13 +16,14 @@ RES = 'pharmpy.tools.external.nonmem.results'
 WRES = 'pharmpy.workflows.results'
 
 
+_CONST_SCOPE = {}
+
+
 def const_int(e):
-    """integer value of -1000000000, -(10**9), 0 ..."""
-    try:
-        v = eval(compile(ast.Expression(e), '<const>', 'eval'), {'__builtins__': {}}, {})
-        return v if isinstance(v, int) else None
-    except Exception:
-        return None
+    """integer value of -1000000000, -(10**9), 0, or of a module- / class-level constant bound to one"""
+    from sa.tables import const_value
+    v = const_value(e, _CONST_SCOPE.get('module'), _CONST_SCOPE.get('cls'))
+    return v if isinstance(v, int) and not isinstance(v, bool) else None
 
 
 def names(node):
@@ -54,6 +55,7 @@ def run(chk, repo, tier):
     ext = tm.classes.get('ExtTable')
     if ext is None:
         raise AnalysisError('ExtTable not found')
+    _CONST_SCOPE.update(module=tm, cls=ext)
     # ---------------------------------------------------------------- Z1
     for acc, want in spec['accessors'].items():
         f = ext.methods.get(acc)
@@ -397,7 +399,12 @@ def run_more(chk, repo):
             if isinstance(n, ast.Assign) and isinstance(n.value, ast.Subscript) and isinstance(n.value.value, ast.Attribute) \
                     and n.value.value.attr == 'loc' and any(isinstance(c, ast.Call) and isinstance(c.func, ast.Attribute)
                                                              and c.func.attr == 'any' for c in ast.walk(n.value.slice)):
-                filters[name] = unparse(n.value.slice)
+                # the name of the frame the filter is applied to is immaterial (df / df_copy / ...): written DF
+                recv = n.value.value.value
+                txt = unparse(n.value.slice)
+                import re as _re
+                txt = _re.sub(rf'(?<![\w.]){_re.escape(unparse(recv))}\b', 'DF', txt)
+                filters[name] = txt
     if len(filters) < 3:
         raise AnalysisError(f'Z9: row filters of PhiTable not recognised ({filters})')
     common = max(set(filters.values()), key=list(filters.values()).count)
